@@ -181,29 +181,54 @@ def rand_event(rng, g, nodes, nmax=4, malformed=False, p_none=0.1, kmax=3):
 
 def _scm_graph(rng, nmax=5):
     for _ in range(50):
-        g = G.rand_graph(rng, 1, nmax, acyclic=True)
+        g = _graph(rng, nmax)
         if len(g["bi"]) <= 4:
             return g
     g["bi"] = g["bi"][:4]
     return g
 
 
-def cases(rng: random.Random, tier: str):
-    out = [dict(c) for c in CORPUS]
-    for c in out:
+CORPUS_DIR = C.VERIF / "corpus" / "C19"
+
+
+def load_corpus():
+    """corpus/C19/*.json: paper / test-suite examples and every past witness (written by `write_corpus`, run first)"""
+    out = []
+    for f in sorted(CORPUS_DIR.glob("*.json")):
+        c = json.loads(f.read_text())
+        c.pop("_comment", None)
+        out.append(c)
+    return out
+
+
+def write_corpus():
+    CORPUS_DIR.mkdir(parents=True, exist_ok=True)
+    for k, c in enumerate(CORPUS):
+        c = dict(c)
         c.setdefault("seed", 1)
         c.setdefault("models", 2)
+        (CORPUS_DIR / f"{k:03d}_{c['op']}.json").write_text(json.dumps(c, sort_keys=True) + "\n")
+
+
+def _graph(rng, nmax=6):
+    n = rng.choices([1, 2, 3, 4, 5, 6], weights=[4, 8, 20, 26, 26, 16])[0]
+    n = min(n, nmax)
+    return G.rand_graph(rng, n, n, acyclic=True)
+
+
+def cases(rng: random.Random, tier: str):
+    out = load_corpus()
     quick = tier != "thorough"
-    n_set = 900 if quick else 7000      # set-valued / structural streams
-    n_sem = 330 if quick else 3000      # streams evaluated on functional SCMs
-    models = 2 if quick else 3
+    n_set = 50000 if quick else 350000     # set-valued / structural streams
+    n_sem = 45000 if quick else 300000     # streams evaluated on functional SCMs
+    models = 3 if quick else 4
     weights = [("minimize", 3), ("minimize_event", 1), ("ancestors", 4), ("components_from_sets", 3),
                ("ancestral_components", 4), ("is_factor_form", 2), ("factors", 2), ("factors_values", 1), ("convert", 2)]
     ops = [o for o, w in weights for _ in range(w)]
     for _ in range(n_set):
         op = rng.choice(ops)
         malformed = rng.random() < 0.12
-        g = G.rand_graph(rng, 1, 6, acyclic=True)
+        g = _graph(rng)
         nodes = G.all_nodes(g)
         c = {"op": op, "g": g, "seed": rng.randrange(1 << 30), "models": 0, "malformed": malformed}
         pout = 0.05 if malformed else 0.0
@@ -297,6 +322,11 @@ def _dec_event(e):
     return [(dec_var(v), _dec_val(x)) for v, x in e]
 
 
+def _bag(xs):
+    """a list compared as a multiset"""
+    return sorted(xs, key=C.sort_key)
+
+
 def _enc_factorisation(expr, event):
     """(Sum over ranges of a Product of joint probabilities, event) -> canonical form, sets as sets"""
     from y0.dsl import Probability, Product, Sum
@@ -312,7 +342,7 @@ def _enc_factorisation(expr, event):
         factors = C.as_set([C.as_set([_enc_var(v) for v in f.children]) for f in fs])
         if len(factors) != len(fs):
             return ["odd", to_str_tree(enc_expr(expr)), _enc_event(event)]
-        return ["fact", C.as_set(ranges), factors, _enc_event(event)]
+        return ["fact", C.as_set(ranges), factors, _bag(_enc_event(event))]
     return ["odd", to_str_tree(enc_expr(expr)), _enc_event(event)]
 
 
@@ -342,7 +372,7 @@ def _call(case):
                 wf = f"minimize_counterfactual returned a {type(r).__name__}"
             out = ["ok", _enc_var(r)]
         elif op == "minimize_event":
-            out = ["ok", _enc_event(api.minimize_event(event=_dec_event(case["e"]), graph=graph))]
+            out = ["ok", _bag(_enc_event(api.minimize_event(event=_dec_event(case["e"]), graph=graph)))]
         elif op == "simplify":
             r = api.simplify(event=_dec_event(case["e"]), graph=graph)
             out = ["ok", "none"] if r is None else ["ok", ["some", C.as_set(_enc_event(r))]]
@@ -373,7 +403,7 @@ def _call(case):
             r = api.get_counterfactual_factors_retaining_variable_values(event=set(_dec_event(case["e"])), graph=graph)
             out = ["ok", C.as_set([C.as_set(_enc_event(s)) for s in r])]
         elif op == "convert":
-            out = ["ok", _enc_event(api.convert_to_counterfactual_factor_form(event=_dec_event(case["e"]), graph=graph))]
+            out = ["ok", _bag(_enc_event(api.convert_to_counterfactual_factor_form(event=_dec_event(case["e"]), graph=graph)))]
         elif op == "factorize":
             expr, ev = api.do_counterfactual_factor_factorization(variables=_dec_event(case["e"]), graph=graph)
             out = ["ok", _enc_factorisation(expr, ev)]
@@ -444,7 +474,7 @@ def _expected_factorisation(g, q):
         f = [c for c in Dc.values() if S.name(c) in d]
         if f:
             factors.append(f)
-    revent = [[_t(S_convert(g, v)), _t(x)] for v, x in q]
+    revent = _bag([[_t(S_convert(g, v)), _t(x)] for v, x in q])
     return ["fact", C.as_set([_t(V(n)) for n in names - outcome]), _sets(factors), revent]
 
 
@@ -520,6 +550,7 @@ def _oracle(case, out, exc, wf):
             e = S.minimise(g, v)
             e = e[:3] + [v[3]] + [e[4]] if not e[4] else e
             exp.append([_t(e), _t(x)])
+        exp = _bag(exp)
         return None if out[1] == exp else f"minimize_event: {out[1]} differs from the item-wise ||.|| {exp}"
     if op == "simplify":
         e = case["e"]
@@ -604,7 +635,7 @@ def _oracle(case, out, exc, wf):
             return None
         if out[0] == "err":
             return f"convert_to_counterfactual_factor_form raised {exc} on an event over V(G)"
-        exp = [[_t(S_convert(g, v)), _t(x)] for v, x in e]
+        exp = _bag([[_t(S_convert(g, v)), _t(x)] for v, x in e])
         return None if out[1] == exp else f"convert_to_counterfactual_factor_form: {out[1]} differs from W_(pa_W): {exp}"
     if op == "factorize":
         q = case["e"]
@@ -641,6 +672,12 @@ def run_python(case):
     tags = {"op": case["op"], "n_nodes": len(nodes), "outcome": out[0] if out[0] == "err" else "ok",
             "exception": exc or "-", "max_subscripts": nsub, "malformed": bool(case.get("malformed")),
             "scm_models": case.get("models", 0)}
+    tags["op_exception"] = f"{case['op']}:{exc}" if exc else "-"
+    if case["op"] in ("components_from_sets", "ancestral_components") and out[0] == "ok":
+        n_in = len(case["sets"]) if "sets" in case else len(case["roots"])
+        tags["components"] = f"{n_in}->{len(out[1])}"
+    if case["op"] == "factorize" and out[0] == "ok" and out[1][0] == "fact":
+        tags["factorisation"] = f"{len(out[1][2])} factors, {len(out[1][1])} summed"
     if case["op"] in ("simplify", "simplify_factorize") and out[0] == "ok":
         tags["simplify_result"] = "none" if out[1] == "none" else "event"
     if case["op"] == "minimize" and out[0] == "ok":
@@ -682,7 +719,7 @@ def _m_fact(body):
         inner = inner[2]
     fs = inner[1:] if isinstance(inner, list) and inner and inner[0] == "prod" else [inner]
     if all(isinstance(f, list) and f and f[0] == "P" and not f[2] for f in fs):
-        return ["fact", C.as_set(ranges), C.as_set([C.as_set(list(f[1])) for f in fs]), [list(it) for it in ev]]
+        return ["fact", C.as_set(ranges), C.as_set([C.as_set(list(f[1])) for f in fs]), _bag([list(it) for it in ev])]
     return ["odd", expr, [list(it) for it in ev]]
 
 
@@ -694,7 +731,7 @@ def canon_model(case, rep):
     if op == "minimize":
         return ["ok", body]
     if op in ("minimize_event", "convert"):
-        return ["ok", [list(it) for it in body]]
+        return ["ok", _bag([list(it) for it in body])]
     if op == "simplify":
         return ["ok", "none"] if body == "none" else ["ok", ["some", C.as_set([list(it) for it in body[1]])]]
     if op == "ancestors":
